@@ -570,11 +570,37 @@ func genC18(r *Rng, idx int, tier string) *Scenario {
 	}
 	for i := 0; i < ntasks; i++ {
 		steps := genTaskSteps(r, nops, shared, sharedProt, !parallel)
+		if parallel {
+			// the task's very first operation touches one of the registries / lazily built tables, so that in a
+			// cold process the first uses of several tasks overlap (round 0 runs them all at once)
+			cfg0 := GenCfg{SizeClass: 1, MaxPayloads: 3, MaxInner: 2000, Kinds: allKinds}
+			s2 := suiteByIndex(r.Intn(54))
+			var cold Step
+			switch r.Intn(6) {
+			case 0:
+				cold = Step{Op: "eap_ops", Msg: &MsgSpec{Payloads: []PayloadSpec{{Kind: "EAP", EAP: genAka(r, &cfg0)}}}, Key: r.Bytes(32)}
+			case 1:
+				cold = Step{Op: "mapping", Suite: &s2, SpiI: r.U64(), SpiR: r.U64()}
+			case 2:
+				cold = Step{Op: "dh_shared", Group: Pick(r, 2, 14), X: r.Bytes(Pick(r, 2, 16)), Y: r.Bytes(Pick(r, 1, 64))}
+			case 3:
+				cold = Step{Op: "plain_codec", Msg: genMsg(r, &cfg0)}
+			case 4:
+				cold = Step{Op: "kdf", Suite: &s2, Nonce: r.Bytes(32), Secret: r.Bytes(32), SpiI: r.U64(), SpiR: r.U64()}
+			default:
+				cold = Step{Op: "dh_gen", Rand: &RandScript{Seed: r.U64()}}
+			}
+			steps = append([]Step{cold}, steps...)
+		}
 		if i > 0 && r.Chance(1, 3) {
 			// distinct key OBJECTS holding identical key material: the two ends of one SA on different goroutines
 			prev := st.Tasks[i-1].Steps
-			if len(prev) > 0 && prev[0].Op == "sa" && len(steps) > 0 && steps[0].Op == "sa" {
-				steps[0] = prev[0]
+			pi, si := 0, 0
+			if parallel {
+				pi, si = 1, 1
+			}
+			if len(prev) > pi && prev[pi].Op == "sa" && len(steps) > si && steps[si].Op == "sa" {
+				steps[si] = prev[pi]
 			}
 		}
 		st.Tasks = append(st.Tasks, Task{Steps: steps})
@@ -586,6 +612,16 @@ func genC18(r *Rng, idx int, tier string) *Scenario {
 		for i := range left {
 			left[i] = len(st.Tasks[i].Steps)
 			total += left[i]
+		}
+		if ntasks >= 2 {
+			// round 0: the FIRST operation of every task, all at once
+			var all []int
+			for t := 0; t < ntasks; t++ {
+				all = append(all, t)
+				left[t]--
+				total--
+			}
+			st.Rounds = append(st.Rounds, all)
 		}
 		for total > 0 && len(st.Rounds) < 4000 {
 			var round []int
